@@ -50,7 +50,7 @@ PINS = {
                        "busy n = true -> exists s, enabled n s = true",
 }
 # (programs per shard, shards, operations per client, schedules per directed program)
-SIZES = {"quick": (50, 8, 60, 60), "thorough": (1250, 16, 60, 400)}
+SIZES = {"quick": (80, 8, 60, 60), "thorough": (1250, 16, 60, 400)}
 
 # the minimal programs of the four findings of design/C06.md (they run first, under many schedules)
 DIRECTED = [
@@ -60,6 +60,21 @@ DIRECTED = [
     "n=1 fifo=0 sched=7 spur=0 barrier=0 faults=0 | 0:kr.4.0 0:cls.0.1 0:er.0.5.0 0:cls.0.2 0:sd.0.3 0:sd.0.3 0:yi.3 0:sd.0.2",
     "n=1 fifo=0 sched=7 spur=0 barrier=0 faults=0 | 0:co.2 0:cs.0.2.1 0:px.0 0:ca.2.6.2 0:sh",
     "n=2 fifo=1 sched=7 spur=0 barrier=0 faults=0 | 0:co.2 0:cs.0.2.1 0:sy.1 1:yi.4 1:px.0 1:ca.2.6.2 1:sh",
+    # event oracle, two shapes that must PASS on a correct tree: (a) three proxies of one service in one
+    # client, two subscribed to event 0, one to nothing; one of the two is dropped; the other still
+    # gets event 0.  (b) an all-events subscriber on one connection, the last single-event
+    # subscription (another connection) ends; the all-events subscriber still gets every event.
+    "n=2 fifo=0 sched=7 spur=0 barrier=0 faults=0 | 0:co.0 0:cs.0.0.1 0:rz 1:rz 1:pf.0.3.17 1:rz 0:rz 1:dp.0 1:rz 0:rz "
+    "0:sv.0.0.0 0:rz 1:rz 1:pe.1.1",
+    "n=3 fifo=2 sched=7 spur=0 barrier=0 faults=0 | 0:co.0 0:cs.0.0.1 0:rz 1:rz 2:rz 1:pf.0.1.8 2:pf.0.1.1 0:rz 1:rz 2:rz "
+    "2:dp.0 0:rz 1:rz 2:rz 0:sv.0.0.1 0:rz 1:rz 2:rz 1:pe.0.1",
+    # protocol versions, shapes that must PASS: (c) a client that negotiated exactly 1.17 drops the last proxy of a
+    # service and goes on using its connection; (d) owner at 1.14 (old Connect handshake), subscribers at 1.16 / 1.18 /
+    # 1.19: families with subscribe_all (NotSupported: the owner is below 1.18), emits, every proxy dropped.
+    "n=2 fifo=0 sched=7 spur=0 barrier=0 faults=0 ver=20,17 | 0:co.0 0:cs.0.0.1 0:rz 1:rz 1:px.0 1:dp.0 1:sy.1 1:sy.1 1:rz 0:rz",
+    "n=4 fifo=1 sched=7 spur=0 barrier=0 faults=0 ver=14,16,18,19 | 0:co.0 0:cs.0.0.1 0:rz 1:rz 2:rz 3:rz 0:pf.0.2.145 "
+    "1:pf.0.2.145 2:pf.0.2.145 3:pf.0.2.145 0:rz 1:rz 2:rz 3:rz 0:sv.0.0.0 0:sv.0.0.1 1:dp.0 2:dp.0 3:dp.0 0:dp.0 0:rz 1:rz "
+    "2:rz 3:rz 1:dp.0 2:dp.0 3:dp.0 0:dp.0 0:sy.1 1:sy.1 2:sy.1 3:sy.1 0:rz 1:rz 2:rz 3:rz",
 ]
 
 WHAT = {
@@ -76,6 +91,27 @@ WHAT = {
         "double-bind-closes-held-end: a client binds a channel end it already holds; the refused second claim closes "
         "the held end with claimed = true, the client drops its map entry, and the next item / capacity update of "
         "the held end trips debug_assert!(contains_key) in req_send_item / req_add_channel_capacity",
+    "event-lost":
+        "event-lost: an event the service owner emitted while a proxy held a confirmed subscription to it (subscribe() / "
+        "subscribe_all() returned Ok, then every client synced with the broker twice around a barrier; the application "
+        "has not unsubscribed or dropped THAT proxy since) never reaches that proxy: its awaited next_event() does not "
+        "complete although the peer has acted, or a later emit overtakes it (subscriptions of sibling proxies of the "
+        "same client / of other connections, client/proxies.rs and client/broker_subscriptions.rs bookkeeping)",
+    "event-unsubscribed":
+        "event-unsubscribed: a proxy delivered an event although, at no time between the emit and the delivery, it was "
+        "subscribed to that event id or to all events of the service",
+    "event-order":
+        "event-order: a proxy delivered the events of its service twice or not in emit order",
+    "event-foreign":
+        "event-foreign: a proxy delivered an event that was emitted by another service",
+    "event-stream-end":
+        "event-stream-end: next_event() returned None (service destroyed) although events emitted BEFORE the owner began "
+        "to destroy the service, under a confirmed subscription of this proxy, were never delivered (they precede the "
+        "destruction on every FIFO between owner and proxy)",
+    "closed-by-broker":
+        "closed-by-broker: the broker shut a client's connection down (Shutdown received before the client sent its own): "
+        "the client used a message the broker does not accept on this connection, e.g. one newer than the negotiated "
+        "protocol version",
     "drain-abort-spin":
         "drain-abort-spin: Client::drain_transport ignores Selected::AbortFunctionCall without marking the call "
         "aborted, so select() returns it again at once: Client::run loops inside one poll and never yields (a "
@@ -86,9 +122,13 @@ OPS = {
     "co": "create_object(uuid #{0})", "do": "object #{0}: {1:destroy().await then |}drop",
     "cs": "object #{0}: create_service(uuid #{1}, version {2}) + server task",
     "sv": "server #{0}: {1:emit event|destroy().await and stop|stop (drop the Service)} {2}",
-    "px": "Proxy::new(global service #{0})", "ca": "proxy #{0}: call(function*8+answer class = {1}; classes 0-2 ok, 3 err, 4 abort, 5 drop promise, 6 invalid_function, 7 invalid_args), {2:awaited|reply dropped at once|reply polled once, then dropped|reply held}",
+    "px": "Proxy::new(global service #{0})",
+    "pf": "proxy family: {1} x Proxy::new(global service #{0}), member j subscribes per bits 4j..4j+3 of {2} "
+          "(1 = event 0, 2 = event 1, 4 = event 2, 8 = subscribe_all)",
+    "rz": "rendezvous with all clients: sync_broker(), barrier, sync_broker(), barrier (confirms subscriptions)",
+    "ca": "proxy #{0}: call(function*8+answer class = {1}; classes 0-2 ok, 3 err, 4 abort, 5 drop promise, 6 invalid_function, 7 invalid_args), {2:awaited|reply dropped at once|reply polled once, then dropped|reply held}",
     "aw": "await held call #{0}", "su": "proxy #{0}: subscribe({1})", "us": "proxy #{0}: unsubscribe({1})",
-    "sa": "proxy #{0}: subscribe_all()", "ua": "proxy #{0}: unsubscribe_all()", "pe": "proxy #{0}: poll up to {1} events",
+    "sa": "proxy #{0}: subscribe_all()", "ua": "proxy #{0}: unsubscribe_all()", "pe": "proxy #{0}: await every event owed to it (confirmed subscription at the emit), then poll up to {1} more",
     "dp": "drop proxy #{0}", "ks": "create channel claiming the SENDER; unclaimed receiver: {0:unbind into the pool|keep}",
     "kr": "create channel claiming the RECEIVER (capacity {0}); unclaimed sender: {1:unbind into the pool|keep}",
     "clr": "bind pool receiver #{0} and claim({1}); flags {2} (bit0 leave the cookie in the pool, bit1 drop the claim future after its first poll)",
@@ -248,6 +288,7 @@ def search(o, per_shard, shards, ops, reps, seed):
                         timeout=3000)
     agree = {"AGREE": 0, "DISAGREE": 0, "SKIP": 0}
     verdicts = {}
+    by_version = {}
     recv = 0
     first = []
     for (rc, out), d in zip(res, tdirs):
@@ -267,6 +308,10 @@ def search(o, per_shard, shards, ops, reps, seed):
                 m = re.search(r"recv=(\d+)", line)
                 if m and w[0] == "AGREE":
                     recv += int(m.group(1))
+                m = re.search(r" ver=(\d+)", line)
+                if m:
+                    key = f"1.{m.group(1)} {w[0]}"
+                    by_version[key] = by_version.get(key, 0) + 1
                 if w[0] == "DISAGREE" and len(first) < 5:
                     first.append(d + ": " + line.strip()[:600])
     if agree["DISAGREE"]:
@@ -278,13 +323,31 @@ def search(o, per_shard, shards, ops, reps, seed):
         "distinct_nontrivial": st["distinct_nontrivial"],
         "rule": "one evaluation = one multi-client program executed to quiescence on the real Client/Broker/Connection "
                 "tasks under one seeded schedule and judged by the oracle (run() results, panics, API error classes, call "
-                "values, item order, hang/spin/budget, idle shutdown). distinct_nontrivial = distinct operation lists "
+                "values, item order, hang/spin/budget, idle shutdown, and the EVENT oracle: per proxy and key (event id 0..3, "
+                "all events) the subscription state known from the program; a key subscribed before a rendezvous (rz: all "
+                "clients sync_broker, barrier, sync_broker, barrier) of the proxy's client and the owner is confirmed, and every "
+                "event emitted under a confirmed key must reach that proxy exactly once, in emit order, until the application "
+                "unsubscribes/drops that very proxy - awaited without bound, quiescence = event-lost; a delivered event must "
+                "have been emitted while the proxy was subscribed at some time between emit and delivery). distinct_nontrivial = distinct operation lists "
                 "(FNV hash) with >= 2 active clients, >= 8 operations and at least one cross-client operation (proxy of "
                 "another client's service or claim of another client's channel end). Programs: 2-4 clients x up to "
                 f"{ops} operations each over objects, services + server tasks, proxies, calls (awaited / dropped / "
-                "cancelled / held), events, subscribe-all, channels created either way, claims by any client incl. refused, "
+                "cancelled / held), events, subscribe-all, channels created either way (half of the programs); the other half "
+                "is event-themed: 1-3 services, per client up to 8 live proxies in families of 1-5 per service created at "
+                "different times with different subscription sets (single events, all events, both, none), subscribe / "
+                "unsubscribe / subscribe_all / unsubscribe_all / drops at any point while siblings stay, rendezvous rounds, "
+                "owner emit bursts over subscribed and unsubscribed ids racing with the next round's changes, early "
+                "disconnects; one third of these sparse (few single-event subscriptions that come and go next to all-events "
+                "subscriptions of the same and of other connections); measured shape counters in result_classes: "
+                "subend.siblings_mixed[_confirmed], subend.last_single_event_while_all_events_{elsewhere,same_client}, "
+                "proxy.siblings_at_creation.N, event.must_{recorded,delivered}. Also claims by any client incl. refused, "
                 "cancelled and repeated claims, items with capacity, bus listeners, explicit shutdown; transports "
-                "unbounded and bounded(1..16); 1/6 of the cases with spurious polls. Plus the directed programs of "
+                "unbounded and bounded(1..16); 1/6 of the cases with spurious polls; protocol versions: in half of the programs "
+                "every client negotiates its own version 1.14..1.20 (recorded as ver= in the program; 1.14 through the old "
+                "Connect handshake, 1.15-1.19 by clamping the minor version of the client's Connect2 in the tap), the oracle "
+                "allows Error::NotSupported for subscribe_all exactly when the proxy's or the owner's connection is below 1.18, "
+                "checks Handle::version() and that no client receives a Shutdown it did not ask for (closed-by-broker); the "
+                "acceptance automaton replays every session with that session's negotiated version. Plus the directed programs of "
                 "design/C06.md under many schedules, and disturbed sessions (fault-injecting tap) for the correspondence only",
         "samples": st["samples"],
         "input_distribution": {k: st.get(k) for k in ("cases", "ops", "polls", "by_transport", "by_clients",
@@ -293,6 +356,7 @@ def search(o, per_shard, shards, ops, reps, seed):
         "failure_tags": per_tag,
         "correspondence_sessions": agree,
         "correspondence_verdicts": verdicts,
+        "correspondence_sessions_by_protocol_version": dict(sorted(by_version.items())),
         "correspondence_received_messages_agreed": recv,
     })
 
